@@ -37,7 +37,11 @@ use barter_instrument::{
 };
 use barter_integration::channel::{UnboundedRx, UnboundedTx, mpsc_unbounded};
 use chrono::{DateTime, TimeZone, Utc};
-use std::{cell::RefCell, collections::VecDeque};
+use std::{
+    cell::{Cell, RefCell},
+    collections::{HashMap, VecDeque},
+    rc::Rc,
+};
 
 pub type State = EngineState<DefaultGlobalData, DefaultInstrumentMarketData>;
 pub type Txs = MultiExchangeTxMap<UnboundedTx<ExecutionRequest>>;
@@ -89,6 +93,13 @@ pub type Script = VecDeque<(
 pub struct TestStrategy {
     pub id: StrategyId,
     pub script: RefCell<Script>,
+    /// strategy output planned per feed position (used when a whole feed is handed to a runner):
+    /// `tick` is advanced by the feed iterator before each event
+    pub plan: RefCell<HashMap<u64, (
+        Vec<OrderRequestCancel<ExchangeIndex, InstrumentIndex>>,
+        Vec<OrderRequestOpen<ExchangeIndex, InstrumentIndex>>,
+    )>>,
+    pub tick: Rc<Cell<u64>>,
     pub disconnects: Vec<ExchangeId>,
     pub trading_disabled_calls: usize,
 }
@@ -98,6 +109,8 @@ impl TestStrategy {
         Self {
             id: StrategyId::new("verif"),
             script: RefCell::new(VecDeque::new()),
+            plan: RefCell::new(HashMap::new()),
+            tick: Rc::new(Cell::new(0)),
             disconnects: vec![],
             trading_disabled_calls: 0,
         }
@@ -119,7 +132,10 @@ impl AlgoStrategy for TestStrategy {
         impl IntoIterator<Item = OrderRequestCancel<ExchangeIndex, InstrumentIndex>>,
         impl IntoIterator<Item = OrderRequestOpen<ExchangeIndex, InstrumentIndex>>,
     ) {
-        self.script.borrow_mut().pop_front().unwrap_or_default()
+        if let Some(front) = self.script.borrow_mut().pop_front() {
+            return front;
+        }
+        self.plan.borrow_mut().remove(&self.tick.get()).unwrap_or_default()
     }
 }
 
